@@ -241,21 +241,21 @@ theorem core_upd_reach (σ : BState) (i j : Nat) :
     rw [blk_upd_same _ _ _ hl]
 
 theorem buildCfg_correct {env : Env} {p : Stmt} {rn : Bool} {g : Cfg} {st0 : Store} {o : Outcome} {st' : S}
-    (hu : userS p = true) (hs : hoistSafe p = true) (hn : noFor p = true) (hsc : loopScoped p false = true)
+    (hu : userS p = true) (hs : hoistSafe p = true) (hsc : loopScoped p false = true)
     (hb : buildCfg rn p = .ok g) (hex : Exec env p (st0, []) o st') :
     ∃ (n : Nat) (c : Config), run env g.blocks n ⟨0, 0, (st0, []), none⟩ = some c ∧ c.b = 1 ∧
       c.s.2 = st'.2 ∧ agreeU c.s.1 st'.1 ∧
       ((∃ v, o = .ret v ∧ c.ret = some v) ∨ (o = .normal ∧ c.ret = none ∧ rn = true)) := by
   have h02 : (0 : Nat) < initState.len := by decide
   have ho0 : (initState.blk 0).succs = [] := by decide
-  have gr := build_good p 0 0 ⟨1, none, none⟩ initState hn h02 ho0
+  have gr := build_good p 0 0 ⟨1, none, none⟩ initState h02 ho0
   have hJ : JOk ⟨1, none, none⟩ false := fun h => by cases h
   have hexit : ((build p 0 (some 0) ⟨1, none, none⟩ initState).1.blk 1).core = ([], none, []) := by
     rw [gr.touch.frame 1 (by decide) (by decide)]; rfl
   have hlen2 : 2 ≤ (build p 0 (some 0) ⟨1, none, none⟩ initState).1.len := gr.touch.len
   have semf : ∀ bl, Ext (build p 0 (some 0) ⟨1, none, none⟩ initState).1 bl →
-      PostS env bl ⟨1, none, none⟩ (build p 0 (some 0) ⟨1, none, none⟩ initState) o ⟨0, 0, (st0, []), none⟩ st' :=
-    fun bl hx => (sem_stmt hex 0 0 ⟨1, none, none⟩ initState bl false (st0, []) none hu hs hn hsc hJ h02 ho0
+      PostS env bl ⟨1, none, none⟩ (build p 0 (some 0) ⟨1, none, none⟩ initState) o ⟨0, 0, (st0, []), none⟩ 0 st' :=
+    fun bl hx => ((sem_stmt hex).1 0 0 ⟨1, none, none⟩ initState bl false (st0, []) none hu hs hsc hJ h02 ho0
       hx (agreeU.refl _) rfl).1
   simp only [buildCfg] at hb
   generalize build p 0 (some 0) ⟨1, none, none⟩ initState = r at *
@@ -274,7 +274,7 @@ theorem buildCfg_correct {env : Env} {p : Stmt} {rn : Bool} {g : Cfg} {st0 : Sto
       rw [hr2] at hb
       simp only [Except.ok.injEq] at hb
       subst hb
-      obtain ⟨stc, q1, q2, q3⟩ := semf _ (Ext.refl _)
+      obtain ⟨stc, q1, q2, _, q3⟩ := semf _ (Ext.refl _)
       cases o with
       | normal => obtain ⟨b', e1, _⟩ := q3; rw [hr2] at e1; cases e1
       | brk => obtain ⟨t, e1, _⟩ := q3; cases e1
@@ -301,7 +301,7 @@ theorem buildCfg_correct {env : Env} {p : Stmt} {rn : Bool} {g : Cfg} {st0 : Sto
       have hi2 : initState.len = 2 := rfl
       have hfin1 : fin ≠ 1 := by rcases f1 with h | h <;> omega
       have hxl : Ext r.1 (link fin 1 r.1).blocks := (touch_link fin 1 r.1).ext f3
-      obtain ⟨stc, q1, q2, q3⟩ := semf _ hxl
+      obtain ⟨stc, q1, q2, _, q3⟩ := semf _ hxl
       have hgo : ∀ (s : S) (rv : Option Val), step env (link fin 1 r.1).blocks ⟨fin, (r.1.blk fin).stmts.length, s, rv⟩ =
           some ⟨1, 0, s, rv⟩ := fun s rv => step_linked f2 f3 (Ext.refl _) s rv
       have hexit' : ((link fin 1 r.1).blk 1).core = ([], none, []) := by
